@@ -50,6 +50,7 @@ def plan(f, fn, expected):
     """-> mapping actual -> pinned name, or None when the function is not a pure rename of the pinned one"""
     seq = binding_seq(f, fn)
     if seq == expected or len(seq) != len(expected): return None
+    if set(seq) == set(expected): return None            # the same names bound in another order: not a rename, the text is verified as it stands
     m = {a: e for a, e in zip(seq, expected) if a != e}
     if len(set(m.values())) != len(m): return None
     t = f.toks
